@@ -604,8 +604,8 @@ func (sc *specCtx) evalCall(e *CallE) Val {
 		specFail("entry(%s): no such parameter", id.Name)
 	case "unchanged":
 		// unchanged(model): every object allocated at function entry has the same model value as at entry
-		if len(e.Args) != 1 {
-			specFail("unchanged(model)")
+		if len(e.Args) < 1 {
+			specFail("unchanged(model, excluded...)")
 		}
 		id, ok := e.Args[0].(*Ident)
 		if !ok {
@@ -617,7 +617,12 @@ func (sc *specCtx) evalCall(e *CallE) Val {
 		}
 		cur := sc.fc.regionIn(sc.st, sc.heap, "M."+id.Name, regionArraySort(sortByName(ms)))
 		ent := sc.fc.regionIn(sc.st, sc.old, "M."+id.Name, regionArraySort(sortByName(ms)))
-		return boolVal(fmt.Sprintf("(forall ((o U)) (! (=> (< (atime o) %s) (= (select %s o) (select %s o))) :pattern ((select %s o))))", sc.oldNow, cur, ent, cur))
+		guard := []string{fmt.Sprintf("(< (atime o) %s)", sc.oldNow)}
+		for _, ex := range e.Args[1:] {
+			x := sc.eval(ex)
+			guard = append(guard, not(eq("o", x.T)))
+		}
+		return boolVal(fmt.Sprintf("(forall ((o U)) (! (=> %s (= (select %s o) (select %s o))) :pattern ((select %s o))))", and(guard...), cur, ent, cur))
 	case "localfresh":
 		a := args(1)
 		top := sc.fc.top
